@@ -5,6 +5,8 @@ import MesaModel.Proofs.LegacyNet
 import MesaModel.Proofs.LegacyDist
 import MesaModel.Proofs.LegacyNetState
 import MesaModel.Proofs.LegacyIndex
+import MesaModel.Proofs.LegacyHexTorus
+import MesaModel.Proofs.LegacyCompose
 /-!
 # C09 — legacy neighbourhood queries return exactly the cells/agents in range
 
@@ -53,6 +55,16 @@ theorem C09_fast_eq_slow (d : Dim) (pos : Coord) (moore : Bool) (r : Nat) (hint 
 theorem C09_cache_transparent (d : Dim) (qs : List NKey) : askAll d [] qs = qs.map (nbhdCompute d) :=
   askAll_transparent d qs
 
+/-- **the cache key the code uses is the whole argument tuple** (the parameter list and the key tuple are regenerated from
+    mesa/space.py on every run, like the hex tables): every argument of `get_neighborhood` is part of the key under which its
+    result is stored, for both classes, and the arguments are the fields of the model's `NKey` / `HKey` — so the model's cache
+    (keyed by the whole `NKey`) is the code's; a key that forgets an argument, or a new argument, breaks this obligation -/
+theorem C09_cache_key_is_every_argument :
+    (∀ x ∈ Gen.nbhdParams, x ∈ Gen.nbhdCacheKey) ∧ (∀ x ∈ Gen.nbhdCacheKey, x ∈ Gen.nbhdParams) ∧
+    (∀ x ∈ Gen.hexParams, x ∈ Gen.hexCacheKey) ∧ (∀ x ∈ Gen.hexCacheKey, x ∈ Gen.hexParams) ∧
+    Gen.nbhdParams = ["pos", "moore", "include_center", "radius"] ∧ Gen.hexParams = ["pos", "include_center", "radius"] := by
+  decide
+
 theorem C09_hex_cache_transparent (d : Dim) (qs : List HKey) :
     askAllHex d [] qs = qs.map (fun k => hexCompute d k.pos k.ic k.r) :=
   askAllHex_transparent d qs
@@ -63,6 +75,24 @@ theorem C09_hex_spec (d : Dim) (pos : Coord) (ic : Bool) (r : Nat) :
     SortedSet (hexCompute d pos ic r) ∧
     ∀ c, c ∈ hexCompute d pos ic r ↔ (c = pos → ic = true) ∧ (c ≠ pos → Reach (hexNbrs d) r pos c) :=
   hex_spec d pos ic r
+
+/-- **touching is symmetric on the grids of the quantifier** — bounded hex grids of any size and hex tori of *even* width — so
+    "within r steps of touching hexagons" (`Reach (hexNbrs d)` in `C09_hex_spec`) is a distance there.  This is where the even
+    width enters: on a torus of odd width the wrapped tables are not symmetric (witness below), which is why such grids are
+    outside the property's quantifier (they are modelled and tied, but no oracle judges them) -/
+theorem C09_hex_touching_symmetric (d : Dim) (hq : d.torus = false ∨ d.w % 2 = 0) (c n : Coord) (hc : d.inGrid c)
+    (hn : d.inGrid n) : n ∈ hexNbrs d c ↔ c ∈ hexNbrs d n := by
+  cases ht : d.torus with
+  | false => exact hexNbrs_symm_bounded d ht c n hc hn
+  | true =>
+    rcases hq with hq | hq
+    · rw [ht] at hq; cases hq
+    · exact hexNbrs_symm_even_torus d ht hq c n hc hn
+
+/-- a 3x3 hex torus: (2, 1) is listed as touching (0, 0), but (0, 0) is not listed as touching (2, 1) -/
+example : ((2, 1) : Coord) ∈ hexNbrs ⟨3, 3, true⟩ (0, 0) ∧ ((0, 0) : Coord) ∉ hexNbrs ⟨3, 3, true⟩ (2, 1) := by decide
+/-- a 4x3 hex torus: (3, 1) touches (0, 0) across the seam, and back -/
+example : ((3, 1) : Coord) ∈ hexNbrs ⟨4, 3, true⟩ (0, 0) ∧ ((0, 0) : Coord) ∈ hexNbrs ⟨4, 3, true⟩ (3, 1) := by decide
 
 theorem C09_hex_cells_in_grid (d : Dim) (hw : 0 < d.w) (hh : 0 < d.h) (pos : Coord) (hpos : d.inGrid pos) (ic : Bool) (r : Nat) :
     ∀ c ∈ hexCompute d pos ic r, d.inGrid c :=
@@ -106,6 +136,23 @@ theorem C09_get_neighbors_exact (g : Grid) (hi : Inv g) (hw : 0 < g.w) (hh : 0 <
   · rintro ⟨c, hp, h1, h2⟩
     have hcg : g.inGrid c := hi.in_grid c (List.ne_nil_of_mem ((hi.pos_content a c).mp hp))
     exact ⟨c, (hmem c).mpr ⟨hcg, h1, h2⟩, hp⟩
+
+/-- **cached `get_neighbors` interleaved with moves** (review item L11): on one grid instance, any history of mutating calls
+    (within C08's quantifier) interleaved with `get_neighbors` queries — answered through the cache, which is filled by the
+    earlier queries and never invalidated — returns, query by query, what a fresh neighbourhood computation on the grid *as it is
+    at that moment* returns (`freshQ`); the cache cannot go stale because its entries depend on the shape of the grid only, which
+    no call changes.  Each such state satisfies `Inv` (`C08_views_agree_all_histories`), so `C09_get_neighbors_exact` says what
+    every answer is: the agents standing in range at that moment. -/
+theorem C09_cached_neighbors_with_moves (w h : Int) (hw : 1 ≤ w) (hh : 1 ≤ h) (torus multi : Bool) (cutoff : Nat)
+    (hist : List GQ) (hok : HistOkQ (init w h torus multi cutoff) hist) :
+    runQ (init w h torus multi cutoff) [] hist = freshQ (init w h torus multi cutoff) hist :=
+  runQ_eq_freshQ hist _ [] (by simp [init]; omega) (by simp [init]; omega) (inv_init w h torus multi cutoff)
+    (by intro k v hl; simp at hl) hok
+
+/-- two agents next to each other, a query (cached), the neighbour moves away, the same query again: first [1], then [] -/
+example : runQ (init 4 4 false false 23) []
+    [.op (.place 0 (1, 1)), .op (.place 1 (1, 2)), .nbrs ⟨(1, 1), true, false, 1⟩, .op (.move 1 (3, 3)), .nbrs ⟨(1, 1), true, false, 1⟩]
+    = [.ok [1], .ok []] := by rfl
 
 /-- **hex `get_neighbors` / `iter_neighbors`**: for a centre in the grid every cell of the neighbourhood is a cell
     of the grid, so the raw indexing of `iter_cell_list_contents` reads exactly those cells, and the agents returned
